@@ -84,7 +84,7 @@ _EMIT = re.compile(r'^<<"([A-Z]+)", (".*")>>$')
 
 
 def tlc(module, cfg=None, env=None, workers=None, timeout=600, simulate=None, depth=None, deadlock=None,
-        dfs=False, coverage=False, name=None, xmx="8g", keep_out=True, allow_fail=False, seed_=None):
+        dfs=False, coverage=False, name=None, xmx="8g", keep_out=True, allow_fail=False, seed_=None, lazy=()):
     """Run TLC on spec/<module>.tla with spec/<cfg>.cfg; return TlcResult."""
     name = name or (cfg or module)
     meta = workdir("tlc-" + name)
@@ -112,26 +112,35 @@ def tlc(module, cfg=None, env=None, workers=None, timeout=600, simulate=None, de
     if env:
         e.update({k: str(v) for k, v in env.items()})
     t0 = time.time()
+    # TLC's output can be gigabytes of emitted vectors: it goes to a file and is read line by line; what is kept as text is
+    # everything EXCEPT the emitted lines; tags named in `lazy` keep their JSON text undecoded (json.loads on demand)
+    outp = os.path.join(meta, "tlc.out")
     try:
-        p = subprocess.run(cmd, cwd=SPEC, env=e, stdout=subprocess.PIPE, stderr=subprocess.STDOUT,
-                           text=True, timeout=timeout, errors="replace")
+        with open(outp, "w") as fo:
+            p = subprocess.run(cmd, cwd=SPEC, env=e, stdout=fo, stderr=subprocess.STDOUT, timeout=timeout)
     except subprocess.TimeoutExpired:
         raise ToolError("TLC timed out after %ds on %s" % (timeout, name))
     r = TlcResult()
     r.wall = time.time() - t0
-    out = p.stdout
-    r.out = out if keep_out else ""
     err_lines = []
-    for line in out.splitlines():
+    kept = []
+    fin = open(outp, errors="replace")
+    for line in fin:
+        line = line.rstrip("\n")
         m = _EMIT.match(line.strip())
         if m:
             try:
-                payload = json.loads(json.loads(m.group(2)))
+                inner = json.loads(m.group(2))
+                payload = inner if m.group(1) in lazy else json.loads(inner)
             except Exception:
                 raise ToolError("cannot parse emitted line: " + line[:300])
-            r.vecs.append(payload)
+            if m.group(1) not in lazy:
+                r.vecs.append(payload)
             r.tags.setdefault(m.group(1), []).append(payload)
             continue
+        kept.append(line)
+        if len(kept) > 20000:
+            kept = kept[:2000] + kept[-8000:]
         m = re.match(r"^(\d+) states generated, (\d+) distinct states found", line)
         if m:
             r.states, r.distinct = int(m.group(1)), int(m.group(2))
@@ -145,6 +154,10 @@ def tlc(module, cfg=None, env=None, workers=None, timeout=600, simulate=None, de
         m = re.match(r"^<(\w+) line .* of module (\w+)>: (\d+):(\d+)", line)
         if m:
             r.coverage[m.group(1)] = int(m.group(4))
+    fin.close()
+    os.remove(outp)
+    out = "\n".join(kept)
+    r.out = out if keep_out else ""
     r.error = "\n".join(err_lines[:6])
     if simulate:
         m = re.search(r"(\d+) states checked", out)
